@@ -247,7 +247,7 @@ func runC19(ctx Ctx) int {
 		return rc
 	}
 	run := ev.NewRun("C19")
-	run.Rule = "A: full product of issuer strings = scheme(10) x separator(5) x userinfo(4) x host(10) x port(5) x path(7) x query(8) x fragment(4) x insecure(2) against the real StaticIssuer factory (and NewProvider for every accepted string), judged by the RFC 3986 appendix-B component regex; A2: every string with <= 1 component off the canonical issuer x 6 prefixes x 9 suffixes of blanks / TAB / LF / CRLF / NBSP / EM SPACE / NUL / VT; B2: every sequence of <= 3 requests over 4 forwarding-header placements on one provider (3 issuer modes); B3: every ordered pair of 8 issuer-factory configurations (Host only, Forwarded, custom lists of 0-3 headers) alive in one process x 8 header subsets; B: full product of configured path(10, incl. percent-escapes, //-prefixed and scheme-like paths) x insecure(2) x request Host(3) x 15 Forwarded header shapes x 3 issuer modes x header placement(3) x request path(2) x X-Forwarded-Proto(2), plus 1 296 cases observed after another tenant's metadata request while the signing-key lookup fails (4 kinds), observed on IssuerFromRequest and on the entityID of the served metadata, judged with an own RFC 7239 reading"
+	run.Rule = "A: full product of issuer strings = scheme(10) x separator(5) x userinfo(4) x host(10) x port(5) x path(7) x query(8) x fragment(4) x insecure(2) against the real StaticIssuer factory (and NewProvider for every accepted string), judged by the RFC 3986 appendix-B component regex; A2: every string with <= 1 component off the canonical issuer x 6 prefixes x 9 suffixes of blanks / TAB / LF / CRLF / NBSP / EM SPACE / NUL / VT; B2: every sequence of <= 3 requests over 4 forwarding-header placements on one provider (3 issuer modes); B3: every ordered pair of 8 issuer-factory configurations (Host only, Forwarded, custom lists of 0-3 headers) alive in one process x 8 header subsets; B4: one issuer option value handed to two constructions with equal / different insecure flags in both orders (4 options x 4 flag pairs x 4 observations); B: full product of configured path(10, incl. percent-escapes, //-prefixed and scheme-like paths) x insecure(2) x request Host(3) x 15 Forwarded header shapes x 3 issuer modes x header placement(3) x request path(2) x X-Forwarded-Proto(2), plus 1 296 cases observed after another tenant's metadata request while the signing-key lookup fails (4 kinds), observed on IssuerFromRequest and on the entityID of the served metadata, judged with an own RFC 7239 reading"
 	run.Assume = []string{"a bare '?' or '#' with nothing after it is not counted as query / fragment", "for syntactically malformed Forwarded values either host choice is accepted; the structure (scheme and path never from the request) is always enforced"}
 	if ctx.Replay != "" {
 		var rp c19Replay
@@ -544,6 +544,58 @@ func runC19(ctx Ctx) int {
 						} else {
 							run.Outcome("two-configurations:ok")
 						}
+					}
+				}
+			}
+		}
+	}
+	// B4: ONE issuer option value handed to two provider constructions (the option is a plain value the integrator may keep and
+	// reuse) with equal or different insecure flags, in both orders: each derived function keeps the scheme of ITS construction,
+	// before and after the other one has been constructed and used
+	{
+		opts := map[string]func() func(bool) (provider.IssuerFromRequest, error){
+			"host":      func() func(bool) (provider.IssuerFromRequest, error) { return provider.IssuerFromHost("/saml") },
+			"forwarded": func() func(bool) (provider.IssuerFromRequest, error) { return provider.IssuerFromForwardedOrHost("/saml") },
+			"custom(x-one)": func() func(bool) (provider.IssuerFromRequest, error) {
+				return provider.IssuerFromForwardedOrHost("/saml", provider.WithIssuerFromCustomHeaders("x-one"))
+			},
+			"static": func() func(bool) (provider.IssuerFromRequest, error) { return provider.StaticIssuer("https://static.example/saml") },
+		}
+		for _, name := range sortedKeys(opts) {
+			for _, flags := range [][2]bool{{false, true}, {true, false}, {false, false}, {true, true}} {
+				opt := opts[name]()
+				f1, err1 := opt(flags[0])
+				r := httptest.NewRequest("GET", "https://req-host.example/x", nil)
+				r.Host = "req-host.example"
+				want := func(insecure bool) string {
+					if name == "static" {
+						return "https://static.example/saml"
+					}
+					if insecure {
+						return "http://req-host.example/saml"
+					}
+					return "https://req-host.example/saml"
+				}
+				var obs []string
+				if err1 == nil {
+					obs = append(obs, f1(r))
+				}
+				f2, err2 := opt(flags[1])
+				if err1 != nil || err2 != nil {
+					run.HarnessError(fmt.Sprintf("B4: %v %v", err1, err2))
+					continue
+				}
+				obs = append(obs, f2(r), f1(r), f2(r))
+				wants := []string{want(flags[0]), want(flags[1]), want(flags[0]), want(flags[1])}
+				for k := range obs {
+					run.Evaluations.Add(1)
+					run.AddStates(1)
+					if obs[k] != wants[k] {
+						run.Outcome("shared-option-value:differs")
+						run.Violate("derived-issuer-depends-on-another-construction-from-the-same-option-value", "issuerFromForwardedOrHost",
+							[]string{"option=" + name, fmt.Sprintf("insecure-flags=%v", flags), fmt.Sprintf("observation=%d", k)}, map[string]any{"got": obs[k], "want": wants[k]}, nil)
+					} else {
+						run.Outcome("shared-option-value:ok")
 					}
 				}
 			}
